@@ -247,7 +247,7 @@ def all_strings(alphabet, maxlen):
         level = nxt
 
 
-ALPHABET = [b"/", b".", b"a", b"b", b"\xc3", b"\xa4"]
+ALPHABET = [b"/", b".", b"a", b"b", b"\xc3", b"\xa4", b"\\"]
 
 
 def write_evidence(pid, tier, seed, coverage, assumptions, wall, violations):
